@@ -64,7 +64,7 @@ def run_shard(desc, R, tier):
     else:
         _, N, cplx = desc
         fam = (A.gen_cplx(N) + A.tones_cplx(N)) if cplx else (A.gen_real(N) + A.tones_real(N) + A.pcm(N) + A.pcm64(N))
-        fam = fam + A.scaled(fam) + A.strided(fam)
+        fam = fam + A.scaled(fam) + A.strided(fam) + A.extreme(fam) + A.single(fam, 2)
         for name, x in fam:
             for p in range(1, min(N - 1, 30) + 1):
                 eval_point({'x': x, 'p': p, 'name': name}, R)
@@ -87,7 +87,15 @@ def eval_point(pt, R):
         R.skip('numerically_singular_autocorrelation')
         return
     kap = float(ev.max() / ev.min())
-    tol = 1e-8 * kap
+    single = A.is_single(x)
+    u = 3e4 if single else 1.0          # float32 / complex64 records may be processed in single precision
+    if single:
+        feats['dtype'] += '-single'
+        if kap > 1e2:
+            R.point(pt, indomain=False)
+            R.skip('ill_conditioned_for_single_precision')
+            return
+    tol = 1e-8 * kap * u
     R.point(pt)
     R.calls()
     try:
@@ -111,13 +119,13 @@ def eval_point(pt, R):
     R.check(close(lhs, rhs, tol, tol * r0), 'normal_eq', feats, pt, lhs, rhs,
             'T(biased autocorrelation) [1,a]^T != [P,0..0]^T: model autocorrelation does not match lags 0..p', err=relerr(lhs, rhs, tol * r0))
     als, _, _, _ = rar.ls_ar(xr, p, 'autocorrelation')
-    R.check(close(a, als, 1e-7 * kap, 1e-9), 'lstsq', feats, pt, a, als, "aryule != least squares on the 'autocorrelation' data matrix",
+    R.check(close(a, als, 1e-7 * kap * u, 1e-9 * u), 'lstsq', feats, pt, a, als, "aryule != least squares on the 'autocorrelation' data matrix",
             err=relerr(a, als))
     if not cplx:
         R.calls()
         try:
             al, el = spectrum.lpc(np.array(x, dtype=float), p)
-            R.check(close(np.asarray(al), a, 1e-7 * kap, 1e-9), 'lpc', feats, pt, al, a, 'lpc coefficients != aryule coefficients')
+            R.check(close(np.asarray(al), a, 1e-7 * kap * u, 1e-9 * u), 'lpc', feats, pt, al, a, 'lpc coefficients != aryule coefficients')
         except Exception as e:
             R.viol('lpc', dict(feats, exc=type(e).__name__), pt, repr(e), a, 'lpc raised')
     if p in (1, 3) and N >= 8:
